@@ -170,7 +170,7 @@ class Hooks:
             "method": self.method,
             "opaque_call": self.opaque_call,
             "opaque_read": self.opaque_read,
-            "opaque_calls": {"get_piola_transform": self.piola, "get_edge_lengths": self.edge_lengths},
+            "opaque_calls": {"get_piola_transform": self.piola, "get_edge_lengths": self.edge_lengths, "elements_adjacent": self.adjacent_value},
             "if": self.if_,
             "continue_guard": self.continue_guard,
             "literal_axes": self.literal_axes,
@@ -203,6 +203,14 @@ class Hooks:
         if len(args) != 2 or not isinstance(args[0], Grid):
             raise AnalysisError("get_edge_lengths call shape changed")
         return EdgeLen(args[0], args[1])
+
+    def adjacent_value(self, it, args, node):
+        """elements_adjacent(...) used as a VALUE (flag[k] = elements_adjacent(..)): the adjacency marker; gated when the
+        statement stands under `if grids_identical:`"""
+        if len(args) != 3:
+            raise AnalysisError("elements_adjacent arity changed")
+        self.adjacency_tests.append({"table": args[0], "e1": tov(args[1]), "e2": tov(args[2]), "node": node, "gated": getattr(self, "_gate_depth", 0) > 0})
+        return opaque_atom("adj", [tov(args[1]), tov(args[2])])
 
     def opaque_call(self, it, f, args, node):
         if f.kind == "kernel":
@@ -284,6 +292,24 @@ class Hooks:
     def if_(self, it, st):
         t = st.test
         is_adj = lambda x: isinstance(x, ast.Call) and ast.unparse(x.func) == "elements_adjacent"
+        # `if grids_identical:` / `if not grids_identical:` - a test on the boolean INPUT: the branch of the world being
+        # interpreted is taken (self.grids_world: True = test and trial spaces on one grid; the rule runs both worlds)
+        g, neg = (t.operand, True) if isinstance(t, ast.UnaryOp) and isinstance(t.op, ast.Not) else (t, False)
+        if isinstance(g, ast.Name):
+            try:
+                flag = it.ev(g)
+            except AnalysisError:
+                flag = None
+            if isinstance(flag, Opq) and flag.kind == "grids_identical":
+                world = getattr(self, "grids_world", True)
+                self.gate_tests = getattr(self, "gate_tests", 0) + 1
+                take = world != neg
+                self._gate_depth = getattr(self, "_gate_depth", 0) + (1 if take == (not neg) else 0)
+                try:
+                    it.block(st.body if take else st.orelse)
+                finally:
+                    self._gate_depth -= (1 if take == (not neg) else 0)
+                return True
         a = b = None
         if isinstance(t, ast.BoolOp) and isinstance(t.op, ast.And) and len(t.values) == 2:
             x, y = t.values
@@ -295,12 +321,14 @@ class Hooks:
             b = t  # adjacency test without any gate: recorded, reported by the rule that reads adjacency_tests
         if b is not None:
             if True:
-                gated = False
+                gated = getattr(self, "_gate_depth", 0) > 0  # (standing under `if grids_identical:`)
                 if a is not None:
                     flag = it.ev(a)
                     if not (isinstance(flag, Opq) and flag.kind == "grids_identical"):
                         raise AnalysisError("adjacency test is not gated by the grids_identical parameter")
                     gated = True
+                    if not getattr(self, "grids_world", True):
+                        return True  # different grids: the conjunction is false, nothing is written
                 args = [it.ev(x) for x in b.args]
                 if len(args) != 3:
                     raise AnalysisError("elements_adjacent arity changed")
@@ -320,6 +348,8 @@ class Hooks:
 
     def continue_guard(self, it, st):
         v = it.ev(st.test)
+        if isinstance(v, V) and v.iszero() and not getattr(self, "grids_world", True):
+            return None  # different grids: the flag was initialised to False and never set, no pair is skipped
         if not isinstance(v, V):
             raise AnalysisError("continue guard on a non-flag value")
         ats = [a for a in v.atoms()]
@@ -429,7 +459,7 @@ def fresh_var(name, bound):
     return V.atom(v)
 
 
-def run_assembler(ctx, fname, kind, kparams, kernel_dimension=1, module=NK):
+def run_assembler(ctx, fname, kind, kparams, kernel_dimension=1, module=NK, grids_world=True):
     """Symbolically evaluate assembler ``fname``.  Returns (interp, hooks, return value)."""
     m = ctx.repo.mod(module)
     fn = m.fn(fname)
@@ -437,8 +467,10 @@ def run_assembler(ctx, fname, kind, kparams, kernel_dimension=1, module=NK):
     sig = {"regular": REGULAR_SIG, "singular": SINGULAR_SIG, "potential": POTENTIAL_SIG, "sparse_kernel": SPARSE_KERNEL_SIG}[kind]
     if len(params) != len(sig):
         raise AnalysisError("%s: %d parameters, the %s registry signature has %d" % (fname, len(params), kind, len(sig)))
-    symex.reset()
+    if grids_world:
+        symex.reset()  # (the nested pass for the other world continues the numbering of fresh atoms)
     hooks = Hooks(ctx, kind)
+    hooks.grids_world = grids_world
     roles = _sym_inputs(kind, params, hooks)
     if kind != "sparse_kernel":
         roles["kernel_parameters"] = Tensor((len(kparams),), kparams)
@@ -449,6 +481,11 @@ def run_assembler(ctx, fname, kind, kparams, kernel_dimension=1, module=NK):
     args = {p: roles[s] for p, s in zip(params, sig)}
     it = Interp(m, fn, args, hooks.as_dict())
     ret = it.run()
+    if grids_world and getattr(hooks, "gate_tests", 0):
+        # the assembler branches on the boolean input grids_identical: the other world (test and trial spaces on different
+        # grids) is interpreted as well; what it meets there on a decided path (a per-thread flag array that was allocated
+        # without values and is never written, say) is reported by the interpreter itself (INTERP-FAULT)
+        run_assembler(ctx, fname, kind, kparams, kernel_dimension, module, grids_world=False)
     return it, hooks, ret
 
 
